@@ -182,7 +182,7 @@ def consumeAtomEscape (st : PState) : Res (Node × PState) :=
       | (some group, rest') =>
         if group ≤ st.groupCountMax then .ok (.backRef group fl.icase, { st with input := rest' })
         else
-          match characterEscape fl.unicode st.input with
+          match characterEscape fl.unicode (!st.named.isEmpty) st.input with
           | .error e => .error e
           | .ok (ch, rest'') =>
             match charNode fl ch with
@@ -203,7 +203,7 @@ def consumeAtomEscape (st : PState) : Res (Node × PState) :=
       | .error e => .error e
       | .ok n => .ok (n, { st with input := rest })
     else
-      match characterEscape fl.unicode st.input with
+      match characterEscape fl.unicode (!st.named.isEmpty) st.input with
       | .error e => .error e
       | .ok (ch, rest') =>
         match charNode fl ch with
@@ -343,10 +343,10 @@ def consumeAtom : Nat → PState → List Node → Nat → Res AtomOut
         | e :: rest =>
           if e == 0x62 then
             .ok ⟨result ++ [.wordBoundary false (fl.unicode && fl.icase)], { st with input := rest },
-              startOffset, true⟩
+              startOffset, false⟩
           else if e == 0x42 then
             .ok ⟨result ++ [.wordBoundary true (fl.unicode && fl.icase)], { st with input := rest },
-              startOffset, true⟩
+              startOffset, false⟩
           else if e == 0x63 && !fl.unicode then
             match rest with
             | n :: rest2 =>
@@ -443,14 +443,14 @@ def consumeAtom : Nat → PState → List Node → Nat → Res AtomOut
       | .error e => .error e
       | .ok (_, st) =>
         let (negateSet, st) := tryConsume 0x5E st
-        match classSetExpression fl (2 * st.input.length + 4) negateSet
+        match classSetExpression fl (!st.named.isEmpty) (2 * st.input.length + 4) negateSet
             { inp := st.input, depth := st.depth } with
         | .error e => .error e
         | .ok (cs, cst) =>
           .ok ⟨result ++ [cs.node fl.icase negateSet], { st with input := cst.inp, depth := cst.depth },
             startOffset, true⟩
     else if c == 0x5B then
-      match consumeBracket fl st.input with
+      match consumeBracket fl (!st.named.isEmpty) st.input with
       | .error e => .error e
       | .ok (nd, rest) => .ok ⟨result ++ [nd], { st with input := rest }, startOffset, true⟩
     else if c == 0x7B && !fl.unicode then
